@@ -12,7 +12,9 @@ pub const SPARSE_SELECTORS: &[&str] = &[
 pub fn observers(t: &mut Tape<'_>, cfg: &mut Cfg, max_sels: usize, max_docs: usize) {
     let ns = t.range(0, max_sels);
     for _ in 0..ns {
-        let sel = t.pick(SPARSE_SELECTORS).to_string();
+        // mostly the fixed pool (shared prefixes, known text-mode / foreign elements); one in
+        // five is a generated selector over the full grammar (attribute operators, :not, nth)
+        let sel = if t.chance(1, 5) { crate::model::css::render(&crate::gens::sel::selector_set(t, 1, true)[0]) } else { t.pick(SPARSE_SELECTORS).to_string() };
         let mask = t.range(1, 15);
         cfg.sels.push(SelSpec { sel, el: mask & 1 != 0, end_tag: mask & 2 != 0, text: mask & 4 != 0, comments: mask & 8 != 0, ops: vec![] });
     }
